@@ -181,3 +181,24 @@ def auth_reply_garbage(inp):
         tc.close()
         ts.close()
     return {"violates": bool(bad), "detail": sorted(set(bad))[:4]}
+
+
+def low_order_curve25519_point(inp):
+    """the curve25519 engine given low-order peer points (the library raises ValueError for them): the failure must be an
+    SSHException from the handler itself"""
+    from cryptography.hazmat.primitives.asymmetric.x25519 import X25519PrivateKey, X25519PublicKey
+    from paramiko.kex_curve25519 import KexCurve25519
+    from paramiko import SSHException
+    bad = []
+    for pt in (bytes(32), bytes([1]) + bytes(31),
+               bytes.fromhex("e0eb7a7c3b41b8ae1656e3faf19fc46ada098deb9c32b1fd866205165f49b800")):
+        k = KexCurve25519(None)
+        k.key = X25519PrivateKey.generate()
+        try:
+            k._perform_exchange(X25519PublicKey.from_public_bytes(pt))
+            bad.append({"point": pt.hex()[:16], "why": "a shared secret was derived from a low-order point"})
+        except SSHException:
+            pass
+        except Exception as e:
+            bad.append({"point": pt.hex()[:16], "why": "%s escaped from the key-exchange handler" % type(e).__name__})
+    return {"violates": bool(bad), "detail": bad[:3]}
